@@ -6,6 +6,7 @@
 
 mod catalog;
 mod h_cmp;
+mod h_html;
 mod sym;
 mod units;
 
@@ -18,6 +19,8 @@ const ENTRIES: &[(&str, Entry)] = &[
     ("h_c11_api", h_cmp::h_c11_api),
     ("h_c11_vm", h_cmp::h_c11_vm),
     ("h_c12_api", h_cmp::h_c12_api),
+    ("h_c20_writer", h_html::h_c20_writer),
+    ("h_c20_format", h_html::h_c20_format),
 ];
 
 fn main() {
